@@ -55,6 +55,8 @@ class Contract:
         self.closed_heap = kw.pop('closed_heap', False)
         self.bounded = kw.pop('bounded', None)
         self.timeout = kw.pop('timeout', None)
+        self.split = _lst(kw.pop('split', []))             # case split of the precondition (coverage is an obligation)
+        self.merge = kw.pop('merge', True)                # join straight-line if-branches into one state
         self.nonlinear = kw.pop('nonlinear', 'native')   # 'abstract': x*y -> MUL(x, y) + instantiated facts
         if kw:
             raise TypeError("unknown contract keys %s for %s" % (sorted(kw), ident))
